@@ -113,6 +113,8 @@ STR_BODIES = ['', 'a', 'abc', 'hello world', 'it', 'x;y', 'a;', '--no',
               'long string with several words in it', '$$', '#', 'a.b']
 QNAME_BODIES = ['q', 'my col', 'select', 'a;b', 'a--b', 'x/*y', 'a.b', 'T 1',
                 'Order', 'from', 'é', 'x y z', '(p)', 'end', 'a,b']
+# double-quoted only: a doubled quote inside the name
+DQ_ONLY_BODIES = ['a""b', 'say ""hi""', '""x']
 COMMENT_BODIES = ['c', 'note', 'x;y', 'select 1;', '*', 'a * b', 'todo: fix',
                   'end', 'begin', '(', ')', 'from t', '--', 'é', '', ' pad ',
                   'where x = 1', 'a, b']
@@ -148,6 +150,7 @@ class Config:
         self.distinct = True
         self.unary_minus = True
         self.keyword_literals = True
+        self.tight_operators = True
         for k, v in kw.items():
             if not hasattr(self, k):
                 raise TypeError(k)
@@ -221,7 +224,8 @@ class Gen:
         gap = gap if gap is not None else self.g()
         x = rng.random()
         if self.cfg.quoted_names and allow_quoted and x < 0.12:
-            body = rng.choice(QNAME_BODIES)
+            body = rng.choice(QNAME_BODIES + DQ_ONLY_BODIES[:1]
+                              if rng.random() < 0.9 else DQ_ONLY_BODIES)
             if not self.cfg.nonascii and not body.isascii():
                 body = 'q q'
             return self.emit('qname', '"%s"' % body, gap), body
@@ -417,9 +421,18 @@ class Gen:
                 n = rng.choice([1, 1, 2, 3])
         pure = kind not in ('case', 'dollar', 'neg', 'null', 'bool')
         for _ in range(n):
-            self.emit('op', rng.choice(['+', '-', '*', '/', '||', '%']),
-                      'req')
-            _, l, k2 = self.atom(depth, 'req')
+            op = rng.choice(['+', '-', '*', '/', '||', '%'])
+            # operators may be written without blanks where the lexer cannot
+            # fuse them with a neighbour ('%s' is a placeholder, '-1' a
+            # number, '--' / '/*' comment openers)
+            tight = op in ('+', '*', '||') and rng.random() < 0.3 \
+                and self.cfg.tight_operators
+            i_op = self.emit('op', op, 'opt' if tight else 'req')
+            n_before = len(self.s.toks)
+            _, l, k2 = self.atom(depth, 'opt' if tight else 'req')
+            if tight and k2 in ('neg', 'num', 'dollar'):
+                # '+-x', '+.5': keep a blank after the operator
+                self.s.toks[n_before].gap = 'req'
             pure = pure and k2 not in ('case', 'dollar', 'neg', 'null',
                                        'bool')
             # an operand the operator grouping does not accept (CASE,
@@ -550,6 +563,9 @@ class Gen:
         if has_as:
             self.kw(rng.choice(['AS', 'as', 'As']))
         i, nm = self.name_token('req')
+        if has_as and self.s.toks[i].kind in ('qname', 'bname') \
+                and rng.random() < 0.3:
+            self.s.toks[i].gap = 'opt'        # AS"x" / AS`x`
         return nm, has_as, i
 
     def select_item(self, depth, ctx):
@@ -710,7 +726,7 @@ class Gen:
                                 ctx='insert-cols' if ncols else 'insert'))
         if rng.random() < 0.7 or not self.cfg.subqueries:
             self.kw('VALUES')
-            for r in range(rng.choice([1, 1, 2])):
+            for r in range(rng.choice([1, 1, 2, 3, 4])):
                 if r:
                     self.punct(',', 'opt')
                 o = self.open_paren('req' if not r else 'opt')
